@@ -1308,6 +1308,7 @@ func (self *_Assembler) _asm_OP_bin(_ *_Instr) {
 	self.slice_from(_VAR_st_Iv, -1)                 // SLICE  st.Iv, $-1
 	self.Emit("MOVQ", _DI, jit.Ptr(_VP, 0))         // MOVQ   DI, (VP)
 	self.Emit("MOVQ", _SI, jit.Ptr(_VP, 8))         // MOVQ   SI, 8(VP)
+	self.Emit("ADDQ", jit.Imm(3), _SI)              // ADDQ   $3, SI   (a last group without its padding still yields 1-2 bytes)
 	self.Emit("SHRQ", jit.Imm(2), _SI)              // SHRQ   $2, SI
 	self.Emit("LEAQ", jit.Sib(_SI, _SI, 2, 0), _SI) // LEAQ   (SI)(SI*2), SI
 	self.Emit("MOVQ", _SI, jit.Ptr(_VP, 16))        // MOVQ   SI, 16(VP)
